@@ -54,6 +54,25 @@ type c11State struct {
 	cbEvents  int
 }
 
+// c11RowAdd records one error on a row through one of the ways a Row offers: AddError, AddErrorList (alone, or
+// among nil entries), or the same two through the exported embedded container when the row has one.
+func c11RowAdd(row *tabular.Row, e error, salt int) {
+	switch salt % 5 {
+	case 1:
+		row.AddErrorList([]error{e})
+	case 2:
+		row.AddErrorList([]error{nil, e, nil})
+	case 3:
+		if row.ErrorContainer != nil {
+			row.ErrorContainer.AddError(e)
+			return
+		}
+		row.AddError(e)
+	default:
+		row.AddError(e)
+	}
+}
+
 func (s *c11State) newSrc() int { s.nSrc++; return s.nSrc }
 
 func (s *c11State) raise(src int, what string) *c11Err {
@@ -417,7 +436,7 @@ func (s *c11State) step(r *gen.R) {
 		if r.Bool() {
 			e := s.raise(row.src, "row.AddError-before-attach")
 			say("held.AddError(%s)", e.id)
-			row.h.AddError(e.err)
+			c11RowAdd(row.h, e.err, s.nErr)
 			row.h.AddError(nil)
 			row.exp = append(row.exp, e)
 		} else {
@@ -449,7 +468,7 @@ func (s *c11State) step(r *gen.R) {
 		row := rows[r.Intn(len(rows))]
 		e := s.raise(row.src, "row.AddError-after-attach")
 		say("attachedRow.AddError(%s)", e.id)
-		row.h.AddError(e.err)
+		c11RowAdd(row.h, e.err, s.nErr)
 		s.tableExp = append(s.tableExp, e)
 	case 8:
 		rows := s.attachedCellRows()
@@ -501,7 +520,7 @@ func (s *c11State) step(r *gen.R) {
 		} else {
 			e := s.raise(row.src, "separatorRow.AddError")
 			say("separatorRow.AddError(%s)", e.id)
-			row.h.AddError(e.err)
+			c11RowAdd(row.h, e.err, s.nErr)
 			s.tableExp = append(s.tableExp, e)
 		}
 	case 13, 14, 15:
